@@ -905,7 +905,10 @@ func (ex *Exec) step(fr *Frame, ins ssa.Instruction) {
 	case *ssa.Next:
 		fr.regs[x] = ex.rangeNext(fr, x)
 	case *ssa.MakeChan:
-		fr.regs[x] = Scalar{T: ex.allocRef("chan"), Typ: x.Type()}
+		ref := ex.allocRef("chan")
+		fr.regs[x] = Scalar{T: ref, Typ: x.Type()}
+		// the capacity of a channel never changes: cap(ch) is a function of the channel
+		ex.assume(ex.ts.Eq(ex.ts.App("chancap", ex.idxSort(), ref), ex.toIdx(ex.reg(fr, x.Size), x.Size.Type())))
 	case *ssa.Send:
 		ex.chanSend(fr, x)
 	case *ssa.Select:
